@@ -73,6 +73,95 @@ def check_style_ownership(repo, rep):
                "" if ok else f"{why}: two cells can hold the same Style object, so changing one cell's style changes the other's", key="C15.R2@style:ownership")
 
 
+_SIDE_SEM = {}
+
+
+def _side_semantics(repo, mscb, side):
+    """(edge writes of the fullest path, memo entries dropped on it, edge writes of any path) of ``set_cell_border`` in the
+    scenario ``side == <side>``, from its function summary.  An edge write is (side given to cell_for_stroke, row, col,
+    border attribute stored), rows/columns as linear texts (``row-1``); a drop is (memo attribute, key).  None when the
+    function is outside the summariser's language."""
+    from .. import funsum as _fs
+    from ..funsum import Summarizer, decide, simplify
+    from ..linear import lin
+    key_ = (id(mscb), side)
+    if key_ in _SIDE_SEM:
+        return _SIDE_SEM[key_]
+    prm = [a.arg for a in mscb.args.args]
+    tid, rowp, colp, sidep, bval = prm[1], prm[2], prm[3], prm[4], prm[5]
+
+    def lt(e):
+        l_ = lin(e, {})
+        if l_ is None:
+            return U(e).replace(" ", "")
+        out = ""
+        for sym in sorted(l_.t):
+            c = l_.t[sym]
+            out += ("+" if c > 0 and out else "") + ("" if c == 1 else "-" if c == -1 else str(c) + "*") + sym
+        if l_.c:
+            out += ("+" if l_.c > 0 else "") + str(l_.c)
+        return out or "0"
+
+    saved = set(_fs.TABLE_TEXTS)
+    _fs.TABLE_TEXTS.update({"self._row_heights", "self._col_widths"})
+    res = None
+    try:
+        paths = Summarizer(consts=repo.consts, effect_calls={"*"}).summarize(mscb)
+        sc = {sidep: side}
+        outs = decide(paths, sc, limit=6)
+
+        def facts(pth):
+            writes, drops = set(), set()
+            for k_, v_, _n in pth.effects:
+                if not isinstance(v_, ast.AST):
+                    continue
+                v2 = simplify(v_, sc)
+                tgt = attr = None
+                if k_ == "call:setattr" and isinstance(v2, ast.Tuple) and len(v2.elts) == 3 and isinstance(v2.elts[1], ast.Constant) and U(v2.elts[2]) == bval:
+                    tgt, attr = v2.elts[0], v2.elts[1].value
+                elif not k_.startswith("call:") and "._border." in k_ and U(v2) == bval:
+                    place = simplify(ast.parse(k_, mode="eval").body, sc)
+                    if isinstance(place, ast.Attribute):
+                        tgt, attr = place.value, place.attr
+                if tgt is not None:
+                    if isinstance(tgt, ast.Attribute) and tgt.attr == "_border" and isinstance(tgt.value, ast.Call) and U(tgt.value.func) == "self.cell_for_stroke" \
+                            and len(tgt.value.args) == 4 and U(tgt.value.args[0]) == tid:
+                        a = tgt.value.args
+                        s_arg = simplify(a[1], sc)
+                        writes.add((s_arg.value if isinstance(s_arg, ast.Constant) else U(s_arg), lt(a[2]), lt(a[3]), attr))
+                    else:
+                        writes.add(("?", U(tgt)[:40], "", attr))
+                if k_.startswith("call:") and k_.endswith(".pop"):
+                    recv = k_[len("call:"):-len(".pop")].replace(" ", "")
+                    karg = v2.elts[0] if isinstance(v2, ast.Tuple) and v2.elts else v2
+                    for memo in ("_row_heights", "_col_widths"):
+                        if recv == f"self.{memo}[{tid}]":
+                            drops.add((memo, lt(karg)))
+                        elif recv == f"self.{memo}":
+                            drops.add((memo, "*"))
+                if k_.startswith("call:") and k_.endswith(".clear"):
+                    recv = k_[len("call:"):-len(".clear")].replace(" ", "")
+                    for memo in ("_row_heights", "_col_widths"):
+                        if recv in (f"self.{memo}[{tid}]", f"self.{memo}"):
+                            drops.add((memo, "*"))
+            return writes, drops
+
+        best, anyw = (set(), set()), set()
+        for _fx, _kind, _t, pth in outs:
+            w_, d_ = facts(pth)
+            anyw |= w_
+            if len(w_) + len(d_) > len(best[0]) + len(best[1]):
+                best = (w_, d_)
+        res = (best[0], best[1], anyw)
+    except AnalysisError:
+        res = None
+    finally:
+        _fs.TABLE_TEXTS.clear()
+        _fs.TABLE_TEXTS.update(saved)
+    _SIDE_SEM[key_] = res
+    return res
+
+
 def _invalidations(repo, func, stmts, bind=None, depth=0):
     """{(memo attribute, key text or '*')} of the size-memo entries a statement list drops, directly
     (``self._row_heights[table_id].pop(k, None)``, ``del``, ``.clear()``) or through helper methods of the class (their
@@ -484,6 +573,13 @@ def run(repo, rep, tier):
         nb_col = "col" + ("+1" if (axis == "col" and d > 0) else "-1" if (axis == "col" and d < 0) else "")
         own = f"self.cell_for_stroke(table_id,'{side}',row,col)" in txt and f"cell._border.{side}=border_value" in txt
         nb = f"self.cell_for_stroke(table_id,'{opp}',{nb_row},{nb_col})" in txt and f"cell._border.{opp}=border_value" in txt
+        sem = None
+        if not (own and nb):
+            # second reading: the function summary in the scenario of this side (edge writes and memo drops as effects)
+            sem = _side_semantics(repo, mscb, side)
+            if sem is not None:
+                want_w = {(side, "row", "col", side), (opp, nb_row, nb_col, opp)}
+                own = nb = sem[0] == want_w and sem[2] <= want_w
         rep.ob("C15.R3", body[0], f"side {side}: own edge and the {opp} edge of the neighbour at ({nb_row}, {nb_col})", own and nb,
                "" if own and nb else "the shared edge is attributed to the wrong neighbour or side", key=f"C15.R3@{side}:edges")
         memo = "_row_heights" if axis == "row" else "_col_widths"
@@ -492,12 +588,46 @@ def run(repo, rep, tier):
         inv = _invalidations(repo, mscb, body)
         need = {(memo, idx), (memo, nbi)}
         okm = need <= inv or (memo, "*") in inv
+        if not okm:
+            sem = sem if sem is not None else _side_semantics(repo, mscb, side)
+            if sem is not None:
+                inv = sem[1]
+                okm = need <= inv or (memo, "*") in inv
         rep.ob("C15.R3", body[0], f"side {side}: size memo of both affected {axis}s invalidated", okm,
                "" if okm else f"entries dropped: {sorted(inv)}; needed {sorted(need)}: a memoised {axis} size keeps the allowance of the old border", key=f"C15.R3@{side}:memo")
     cfs = repo.func("model.py", "_NumbersModel.cell_for_stroke")
-    s = U(cfs).replace(" ", "").replace("\n", "")
-    ok = "ifrow<0orcol<0:returnNone" in s and "ifrow>=len(data)orcol>=len(data[row]):returnNone" in s
-    rep.ob("C15.R3", cfs, "edges outside the table have no cell", ok, "", key="C15.R3@bounds")
+    # the function summary asked at and around the corners of a 3 x 4 grid: outside -> None on every path, inside -> a cell on some
+    from ..funsum import Summarizer as _Summ, Asg as _Asg, tv3 as _tv3
+    import itertools as _it
+    cfs_paths = _Summ(consts=repo.consts).summarize(cfs)
+    prm = [a.arg for a in cfs.args.args]
+    rowp, colp = prm[3], prm[4]
+    grid = f"self._table_data[{prm[1]}]"
+    NR, NC = 3, 4
+    why = ""
+    seen_cell = False
+    for r_, c_ in _it.product((-1, 0, NR - 1, NR), (-1, 0, NC - 1, NC)):
+        sc = {rowp: r_, colp: c_, f"len({grid})": NR, f"len({grid}[{rowp}])": NC, "len(data)": NR, f"len(data[{rowp}])": NC}
+        inside = 0 <= r_ < NR and 0 <= c_ < NC
+        # the paths the position leaves open (a condition the position does not decide may go either way)
+        asg_ = _Asg(sc)
+        outs = []
+        for p_ in cfs_paths:
+            open_ = True
+            for c2_, o2_ in p_.conds:
+                v_ = _tv3(c2_, asg_)
+                if v_ is not None and v_ != o2_:
+                    open_ = False
+                    break
+            if open_:
+                outs.append((None, p_.kind, U(p_.ret) if p_.ret is not None else None, p_))
+        for _fx, kind_, text_, _p in outs:
+            if not inside and not (kind_ == "return" and text_ == "None"):
+                why = why or f"at (row={r_}, col={c_}) outside a {NR} x {NC} grid the function {kind_}s `{text_}` instead of None (a border on the table's outer edge then touches a cell that is not there, or one on the opposite side through a negative index)"
+            if inside and kind_ == "return" and text_ != "None":
+                seen_cell = True
+    ok = not why and seen_cell
+    rep.ob("C15.R3", cfs, "edges outside the table have no cell", ok, why or ("" if seen_cell else "no position gives a cell"), key="C15.R3@bounds")
 
     # ---- R4 stroke axes agree
     s_add = U(ads).replace(" ", "").replace("\n", "")
@@ -743,6 +873,9 @@ def sym_after(value, sym, cur_S, cur_L, cur_mode=None):
 
 
 VARIANTS = [
+    T("cell-for-stroke-chained-bounds", "model.py", '        if row < 0 or col < 0:\n            return None\n        if row >= len(data) or col >= len(data[row]):\n            return None\n', "        if not (0 <= row < len(data) and 0 <= col < len(data[row])):\n            return None\n"),
+    M("cell-for-stroke-no-negative-check", "model.py", '        if row < 0 or col < 0:\n            return None\n        if row >= len(data) or col >= len(data[row]):\n            return None\n', "        if row >= len(data) or col >= len(data[row]):\n            return None\n", "C15.R3"),
+    M("cell-for-stroke-off-by-one-bound", "model.py", '        if row < 0 or col < 0:\n            return None\n        if row >= len(data) or col >= len(data[row]):\n            return None\n', "        if not (0 <= row <= len(data) and 0 <= col < len(data[row])):\n            return None\n", "C15.R3"),
     M("revert-fix-fingerprint-glued-colour", "model.py", "                            str(cell.style.bg_color.r),\n                            str(cell.style.bg_color.g),\n                            str(cell.style.bg_color.b),\n                        )",
       "                            str(cell.style.bg_color.r)\n                            + str(cell.style.bg_color.g)\n                            + str(cell.style.bg_color.b),\n                        )", "C15.R2"),
     M("revert-fix-custom-style-name-last", "model.py", 'return "Custom Style " + str(max(custom_style_ids) + 1)', 'return "Custom Style " + str(custom_style_ids[-1] + 1)', "C15.R2"),
